@@ -267,9 +267,20 @@ func runHeaders(t *testing.T, rc *core.RunCtx) {
 
 	// Nodes.
 	nPeers := 1 + tp.Intn(4)
+	// adopt2: two honest reliable nodes; the first keeps its initial chain
+	// (and is the client's sync peer), every later offer comes from the
+	// second, i.e. from a peer that is not the sync peer; in half of these
+	// runs neither node serves compact-filter data, so the client's filter
+	// headers never catch up with its block headers.
+	adopt2 := adopt && tp.Chance(1, 3)
+	adoptNoCF := adopt2 && tp.Chance(1, 2)
 	if adopt {
 		nPeers = 1
+		if adopt2 {
+			nPeers = 2
+		}
 	}
+	var adoptView *chainmodel.Block
 	for i := 0; i < nPeers; i++ {
 		beh := &Behaviour{BaseLatency: time.Duration(5+tp.Intn(200)) * time.Millisecond, Jitter: 40 * time.Millisecond}
 		view := tips[tp.Intn(len(tips))]
@@ -279,6 +290,11 @@ func runHeaders(t *testing.T, rc *core.RunCtx) {
 			if tp.Chance(1, 2) {
 				view = mainChain[tp.Intn(n+1)] // starts behind, grows later
 			}
+			if adoptView != nil {
+				view = adoptView // the second node starts where the first is
+			}
+			adoptView = view
+			beh.NoCF = adoptNoCF
 		} else {
 			if tp.Chance(1, 3) {
 				beh.MaxHeaders = 1 + tp.Intn(12)
@@ -301,6 +317,9 @@ func runHeaders(t *testing.T, rc *core.RunCtx) {
 			}
 		}
 		p := w.addPeer(role, view, beh)
+		if adopt2 && i == 1 {
+			p.setUp(false) // becomes reachable after the initial sync from the first node
+		}
 		if !adopt && tp.Chance(1, 6) {
 			p.claimHeight = view.Height + int32(1+tp.Intn(20)) // advertises more than it has
 		}
@@ -446,6 +465,7 @@ func runHeaders(t *testing.T, rc *core.RunCtx) {
 func runAdopt(w *World, wt *watcher, plan *chainPlan, tips []*chainmodel.Block) {
 	tp, rc := w.tp, w.rc
 	p := w.peers[0]
+	two := len(w.peers) == 2
 	// Initial sync.
 	expect := func(what string) {
 		w.runFor(3*time.Minute, nil)
@@ -454,6 +474,18 @@ func runAdopt(w *World, wt *watcher, plan *chainPlan, tips []*chainmodel.Block) 
 		want := adoptWant(w, wt.lastAdopt, p.view)
 		if want == nil {
 			rc.Probe("adopt_offer_misses_checkpoint")
+			want = got
+		}
+		belowCP := false
+		if cps := w.params.Checkpoints; len(cps) > 0 && wt.lastAdopt.Height <= cps[len(cps)-1].Height {
+			belowCP = true
+		}
+		if two && what != "initial-sync" && (belowCP || time.Since(wt.lastAdopt.Hdr.Timestamp) > 23*time.Hour) {
+			// An offer from a peer that is not the sync peer is looked at
+			// only by a client that counts itself current (tip less than a
+			// day old and above every hard-coded checkpoint): no
+			// expectation otherwise.
+			rc.Probe("adopt_offer_from_other_peer_to_client_not_current")
 			want = got
 		}
 		// The adoption clause is about a batch the client was handed: if
@@ -468,8 +500,8 @@ func runAdopt(w *World, wt *watcher, plan *chainPlan, tips []*chainmodel.Block) 
 		if got != want {
 			facts := map[string]string{"offer": what}
 			rc.Failf("valid-heavier-chain-not-adopted-in-full", facts,
-				"single honest node serves tip %d (%s, work cmp vs previous client tip %d); client tip is %d (%s), expected %d (%s)",
-				p.view.Height, short(p.view.Hash), p.view.CumWork.Cmp(wt.lastAdopt.CumWork), got.Height, short(got.Hash), want.Height, short(want.Hash))
+				"honest node %s serves tip %d (%s, work cmp vs previous client tip %d); client tip is %d (%s), expected %d (%s)",
+				p.addr.IP, p.view.Height, short(p.view.Hash), p.view.CumWork.Cmp(wt.lastAdopt.CumWork), got.Height, short(got.Hash), want.Height, short(want.Hash))
 		}
 		wt.lastAdopt = got
 		p.hdrOfferBase = got
@@ -478,8 +510,20 @@ func runAdopt(w *World, wt *watcher, plan *chainPlan, tips []*chainmodel.Block) 
 	wt.lastAdopt = w.tree.Genesis
 	p.hdrOfferBase = w.tree.Genesis
 	expect("initial-sync")
+	if two {
+		// From here on every offer comes from the second node.
+		p = w.peers[1]
+		p.hdrOfferBase = wt.lastAdopt
+		p.setUp(true)
+		w.runFor(2*time.Minute, func() bool { return p.connected() && p.shook })
+		rc.Probe("adopt_offers_from_a_peer_that_is_not_the_sync_peer")
+	}
 	steps := 1 + tp.Intn(5)
 	for i := 0; i < steps; i++ {
+		if two {
+			// (the client may have dropped the node for a lighter offer)
+			w.runFor(time.Minute, func() bool { return p.connected() && p.shook })
+		}
 		if tp.Chance(1, 3) {
 			nb := 1 + tp.Intn(3)
 			p.setView(w.mineChain(p.view, nb, time.Minute, time.Now().Add(-time.Duration(tp.Intn(50))*time.Second), 0, "", &plan.salt, 0))
